@@ -143,7 +143,10 @@ theorem tiers (v : Int) :
   rw [decOne_eq]
   refine ⟨?_, ?_, ?_, ?_, ?_, ?_, ?_⟩ <;> intros <;> (repeat' split) <;> omega
 
-/-- Bridge lemmas: the source expressions the model above was written from. -/
+/-- Bridge lemmas: the source expressions the model above was written from.  The token table is searched by exact equality (the model's `findTok`), so the id a claim carries and the id a
+    batch is stored under are the same string whenever the claim has any effect. -/
+theorem fact_token_lookup_conds : Generated.token_lookup_conds =
+    "ExternalIdToTokenInfoLookup: info.ChainId == chainId.String() && info.ExternalTokenId == externalId | DenomToTokenInfoLookup: info.Denom == denom && info.ChainId == chainId.String() | TokenIdToTokenInfoLookup: info.Id == tokenId" := rfl
 theorem fact_send_commission : Generated.send_commission =
     "k.GetCommissionForHolder(ctx, []string{sender.String(), msg.ExternalRecipient}, tokenInfo.Commission).Mul(msg.Amount.Amount.Add(msg.BridgeFee.Amount).ToDec()).TruncateInt()" := rfl
 theorem fact_send_create_args : Generated.send_create_args =
